@@ -47,8 +47,8 @@ ExpFp(mode, e) == IF mode = "none" THEN "none"
 Init ==
   /\ cfg \in [fpC : FpCs, fpS : FpSs, idC : IdCs, idS : IdSs]
   /\ ep = [e \in E |->
-             IF e = "C" THEN InitEp("C", CertOfId(cfg.idC, "C"), KeyOfId(cfg.idC, "C"), IF cfg.idC = "certC" THEN "dhC" ELSE "dhMc", "rC", ExpFp(cfg.fpC, "C"))
-                        ELSE InitEp("S", CertOfId(cfg.idS, "S"), KeyOfId(cfg.idS, "S"), IF cfg.idS = "certS" THEN "dhS" ELSE "dhMs", "rS", ExpFp(cfg.fpS, "S"))]
+             IF e = "C" THEN InitEp("C", CertOfId(cfg.idC, "C"), AlsoOfId(cfg.idC, "C"), KeyOfId(cfg.idC, "C"), IF cfg.idC = "certC" THEN "dhC" ELSE "dhMc", "rC", ExpFp(cfg.fpC, "C"))
+                        ELSE InitEp("S", CertOfId(cfg.idS, "S"), AlsoOfId(cfg.idS, "S"), KeyOfId(cfg.idS, "S"), IF cfg.idS = "certS" THEN "dhS" ELSE "dhMs", "rS", ExpFp(cfg.fpS, "S"))]
   /\ outbox = <<>>
   /\ net = [d \in Dir |-> <<>>]
   /\ held = [d \in Dir |-> <<>>]
